@@ -20,6 +20,7 @@ pub enum Family {
     C15,
     C16,
     C17,
+    C20,
 }
 
 impl Family {
@@ -38,6 +39,7 @@ impl Family {
             "C15" => Family::C15,
             "C16" => Family::C16,
             "C17" => Family::C17,
+            "C20" => Family::C20,
             _ => return None,
         })
     }
@@ -56,6 +58,7 @@ impl Family {
             Family::C15 => "C15",
             Family::C16 => "C16",
             Family::C17 => "C17",
+            Family::C20 => "C20",
         }
     }
 }
@@ -74,6 +77,7 @@ pub const ALL_FAMILIES: &[Family] = &[
     Family::C15,
     Family::C16,
     Family::C17,
+    Family::C20,
 ];
 
 pub fn generate(f: Family, ch: &mut Choices) -> Plan {
@@ -91,6 +95,7 @@ pub fn generate(f: Family, ch: &mut Choices) -> Plan {
         Family::C15 => gen_c15(ch),
         Family::C16 => gen_c16(ch),
         Family::C17 => gen_c17(ch),
+        Family::C20 => gen_c20(ch),
     }
 }
 
@@ -1033,6 +1038,139 @@ fn gen_c17(ch: &mut Choices) -> Plan {
         plan.peer.script2 = c17_script(ch, max_alias, 1000, v2);
     }
     plan.ending = Ending::Settle;
+    plan
+}
+
+
+// ------------------------------------------------------------------------------------------
+// C20: idle and too-slow peers are timed out, live peers are not
+
+/// Push `pkt` as one step at `t_ms`, or cut in two pieces delivered `gap_ms` apart.
+fn timed_packet(script: &mut Vec<PeerStep>, pkt: Pkt, ver: Ver, t_ms: u64, split: Option<(usize, u64)>) {
+    let bytes = rc::encode(ver, &pkt);
+    match split {
+        Some((k, gap)) if k > 0 && k < bytes.len() => {
+            script.push(PeerStep { pre: Pre::AtMs(t_ms), bytes: bytes[..k].to_vec(), pkt: None, corrupt: None, then_close: None });
+            script.push(PeerStep { pre: Pre::AtMs(t_ms + gap), bytes: bytes[k..].to_vec(), pkt: Some(pkt), corrupt: None, then_close: None });
+        }
+        _ => script.push(PeerStep { pre: Pre::AtMs(t_ms), bytes, pkt: Some(pkt), corrupt: None, then_close: None }),
+    }
+}
+
+fn gen_c20(ch: &mut Choices) -> Plan {
+    let role = pick_role(ch);
+    let ver = role.ver();
+    let mut plan = base_plan("C20", role, ch);
+    plan.cut = Cut::All;
+    plan.p_immediate = *ch.pick(&[1000u32, 0]);
+    plan.p_hold = if plan.p_immediate == 0 { 500 } else { 0 };
+    plan.cfg.disconnect_timeout_s = 1;
+    let mode = if role.is_server() { ch.choose(3) } else { 3 };
+    let mut last_ms: u64 = 0;
+    match mode {
+        0 => {
+            // keep-alive on a server: packets on a coarse grid, then silence
+            let ka = *ch.pick(&[1u16, 2, 3, 0]);
+            plan.peer.connect.keep_alive = ka;
+            if ch.chance(1, 4) {
+                plan.cfg.hs_keepalive = Some(1 + ch.choose(3) as u16);
+            }
+            plan.tags.push("mode:keepalive".into());
+            let n = ch.choose(6);
+            let mut t: u64 = 0;
+            for i in 0..n {
+                t += *ch.pick(&[500u64, 1000, 1000, 2000, 3000, 4000]);
+                let pkt = match ch.choose(3) {
+                    0 => Pkt::PingReq,
+                    1 => Pkt::Publish(mk_publish(ver, ch, i, 0, None, 3)),
+                    _ => Pkt::Publish(mk_publish(ver, ch, i, 1, Some(10 + i as u16), 40)),
+                };
+                let split = if ch.chance(1, 3) { Some((1 + ch.choose(3) as usize, *ch.pick(&[500u64, 1000, 2000]))) } else { None };
+                timed_packet(&mut plan.peer.script, pkt, ver, t, split);
+                last_ms = t + split.map_or(0, |s| s.1);
+            }
+            plan.horizon_ms = last_ms + 9_000;
+        }
+        1 => {
+            // frame read rate: a frame that stalls or trickles
+            plan.peer.connect.keep_alive = 0;
+            let timeout = 1 + ch.choose(2) as u16;
+            let max_timeout = *ch.pick(&[0u16, 4, 6]);
+            let rate = *ch.pick(&[4u32, 16, 64]);
+            plan.cfg.frame_read_rate = Some((timeout, max_timeout, rate));
+            plan.cfg.min_chunk = 32 * 1024;
+            plan.tags.push("mode:read-rate".into());
+            let len = *ch.pick(&[40usize, 300]);
+            let pkt = Pkt::Publish(mk_publish(ver, ch, 0, 0, None, len));
+            let bytes = rc::encode(ver, &pkt);
+            // pieces: first part, then trickle `piece` bytes every `every` ms, possibly never finishing
+            let first = 1 + ch.choose(6) as usize;
+            let piece = *ch.pick(&[1usize, 8, 32, 128]);
+            let every = *ch.pick(&[500u64, 1000, 2000]);
+            let finish = ch.chance(2, 3);
+            let mut t: u64 = 1000;
+            let mut off = first;
+            plan.peer.script.push(PeerStep { pre: Pre::AtMs(t), bytes: bytes[..first].to_vec(), pkt: None, corrupt: None, then_close: None });
+            let mut pieces = 0;
+            while off < bytes.len() && pieces < 12 {
+                t += every;
+                let end = (off + piece).min(bytes.len());
+                let last = end == bytes.len();
+                if last && !finish {
+                    break;
+                }
+                plan.peer.script.push(PeerStep { pre: Pre::AtMs(t), bytes: bytes[off..end].to_vec(), pkt: if last { Some(pkt.clone()) } else { None }, corrupt: None, then_close: None });
+                off = end;
+                pieces += 1;
+            }
+            last_ms = t;
+            plan.horizon_ms = last_ms + 9_000;
+        }
+        2 => {
+            // connect timeout: CONNECT late, in pieces, or never
+            let ct = 1 + ch.choose(3) as u16;
+            plan.cfg.connect_timeout_s = ct;
+            plan.peer.skip_connect = true;
+            plan.peer.connect.keep_alive = 0;
+            plan.tags.push("mode:connect-timeout".into());
+            let conn = Pkt::Connect(plan.peer.connect.clone());
+            match ch.choose(4) {
+                0 => {} // never
+                1 => {
+                    let t = *ch.pick(&[0u64, 500, 1000, 2000, 3000, 5000]);
+                    timed_packet(&mut plan.peer.script, conn, ver, t, None);
+                    last_ms = t;
+                }
+                2 => {
+                    let t = *ch.pick(&[0u64, 500, 1000]);
+                    let gap = *ch.pick(&[500u64, 1000, 2000, 4000]);
+                    timed_packet(&mut plan.peer.script, conn, ver, t, Some((1 + ch.choose(8) as usize, gap)));
+                    last_ms = t + gap;
+                }
+                _ => {
+                    // a few bytes only
+                    let bytes = rc::encode(ver, &conn);
+                    plan.peer.script.push(PeerStep { pre: Pre::AtMs(500), bytes: bytes[..4].to_vec(), pkt: None, corrupt: None, then_close: None });
+                    last_ms = 500;
+                }
+            }
+            plan.horizon_ms = last_ms + 8_000;
+        }
+        _ => {
+            // a client with a keep-alive keeps its idle connection alive
+            let ka = 1 + ch.choose(3) as u16;
+            plan.cfg.client_keepalive_s = ka;
+            plan.peer.auto_ack = ch.chance(3, 4);
+            plan.tags.push("mode:client-keepalive".into());
+            if ch.chance(1, 2) {
+                let t = *ch.pick(&[1000u64, 2500, 4000]);
+                timed_packet(&mut plan.peer.script, Pkt::Publish(mk_publish(ver, ch, 0, 0, None, 3)), ver, t, None);
+            }
+            plan.horizon_ms = 11_000;
+        }
+    }
+    plan.ending = Ending::Settle;
+    plan.max_steps = 20_000;
     plan
 }
 
